@@ -205,6 +205,9 @@ pub fn gen_rw_run(check: &str, seed: u64, tier: Tier) -> Run {
     run.set("crate_rules", Rng::stream(seed, "crate-rules").chance(1, 3) as i64);
     // naming kind 9: binder slots and repeated free slots of the rules are spelled like class slots too
     run.set("hint_binders", Rng::stream(seed, "hint-binders").chance(1, 2) as i64);
+    // the Rewrite values are built once per run and applied at every rewriting step (all rules the run
+    // mentions, every time) instead of being rebuilt per step
+    run.set("persistent_rules", Rng::stream(seed, "persistent-rules").chance(1, 4) as i64);
     run
 }
 
@@ -224,6 +227,9 @@ pub fn new_la_egraph(run: &Run) -> EGraph<LA, SimAn> {
     // (central place of every rw-based execution) rules through the crate's own Rewrite::new?
     crate::rules::VIA_CRATE.with(|c| c.set(run.get("crate_rules") != 0));
     HINT_BINDERS.with(|h| h.set(run.get("hint_binders") != 0));
+    // a new e-graph starts a new execution (C11R runs two in one thread): rules built for the previous
+    // one must not leak into it. (Inside a runner step the rules are held by the step at this point.)
+    PERSISTENT_RULES.with(|c| *c.borrow_mut() = None);
     let an = SimAn { p: run.get("p").clamp(2, 11) as u32, modify: run.get("modify") != 0 };
     if run.get("subst_method") != 0 {
         EGraph::with_subst_method::<ExtractionSubst>(an)
@@ -280,6 +286,32 @@ pub fn make_rules(run: &Run, idxs: &[i64], nm: &mut Naming, probe_budget: Rc<Ref
     out
 }
 
+thread_local! {
+    /// persistent-rules mode: the Rewrite values of the run, built once at its first rewriting step
+    /// and applied again at every later one (rules are normally defined once and used many times)
+    static PERSISTENT_RULES: RefCell<Option<Vec<Rewrite<LA, SimAn>>>> = RefCell::new(None);
+}
+
+/// all rule indices the run mentions, in order of first mention
+fn all_rule_indices(run: &Run) -> Vec<i64> {
+    let n = rule_pool(run.get("p").clamp(2, 11) as u32).len() as i64;
+    let mut out: Vec<i64> = Vec::new();
+    for o in &run.ops {
+        let skip = match o.name.as_str() {
+            "rewrite" => 0,
+            "runner" => 1,
+            _ => continue,
+        };
+        for i in o.i.iter().skip(skip) {
+            let k = i.rem_euclid(n);
+            if !out.contains(&k) {
+                out.push(k);
+            }
+        }
+    }
+    out
+}
+
 /// executes one op of an LA trace; returns whether apply_rewrites reported a change
 pub fn exec_la_op(s: &mut Sess<LA, SimAn>, op: &Op, run: &Run, pb: &Rc<RefCell<u64>>) -> Option<bool> {
     match op.name.as_str() {
@@ -300,7 +332,15 @@ pub fn exec_la_op(s: &mut Sess<LA, SimAn>, op: &Op, run: &Run, pb: &Rc<RefCell<u
         "runner" => {
             // the same rules driven by Runner::run for a few iterations (i[0] = iteration limit)
             set_naming_hint(s);
-            let rules = make_rules(run, &op.i[1..], &mut s.nm, pb.clone());
+            let persistent = run.get("persistent_rules") != 0;
+            let rules = if persistent {
+                match PERSISTENT_RULES.with(|c| c.borrow_mut().take()) {
+                    Some(r) => r,
+                    None => make_rules(run, &all_rule_indices(run), &mut s.nm, pb.clone()),
+                }
+            } else {
+                make_rules(run, &op.i[1..], &mut s.nm, pb.clone())
+            };
             let eg = std::mem::replace(&mut s.eg, new_la_egraph(run));
             let an = SimAn { p: run.get("p").clamp(2, 11) as u32, modify: run.get("modify") != 0 };
             let mut runner: Runner<LA, SimAn, (), String> = Runner::new(an)
@@ -311,6 +351,9 @@ pub fn exec_la_op(s: &mut Sess<LA, SimAn>, op: &Op, run: &Run, pb: &Rc<RefCell<u
             // (resume_unwind keeps the recorded panic information of the original panic)
             let r = std::panic::catch_unwind(std::panic::AssertUnwindSafe(|| runner.run(&rules)));
             s.eg = std::mem::replace(&mut runner.egraph, new_la_egraph(run));
+            if persistent {
+                PERSISTENT_RULES.with(|c| *c.borrow_mut() = Some(rules));
+            }
             if let Err(e) = r {
                 std::panic::resume_unwind(e);
             }
@@ -318,13 +361,27 @@ pub fn exec_la_op(s: &mut Sess<LA, SimAn>, op: &Op, run: &Run, pb: &Rc<RefCell<u
         }
         "rewrite" => {
             set_naming_hint(s);
-            let rules = make_rules(run, &op.i, &mut s.nm, pb.clone());
+            let persistent = run.get("persistent_rules") != 0;
+            let rules = if persistent {
+                match PERSISTENT_RULES.with(|c| c.borrow_mut().take()) {
+                    Some(r) => r,
+                    None => make_rules(run, &all_rule_indices(run), &mut s.nm, pb.clone()),
+                }
+            } else {
+                make_rules(run, &op.i, &mut s.nm, pb.clone())
+            };
             if run.get("probes") != 0 {
                 MAKE_PROBE.with(|m| m.set(run.get("probes") as u64));
             }
-            let r = apply_rewrites(&mut s.eg, &rules);
+            let r = std::panic::catch_unwind(std::panic::AssertUnwindSafe(|| apply_rewrites(&mut s.eg, &rules)));
             MAKE_PROBE.with(|m| m.set(0));
-            Some(r)
+            if persistent {
+                PERSISTENT_RULES.with(|c| *c.borrow_mut() = Some(rules));
+            }
+            match r {
+                Ok(r) => Some(r),
+                Err(e) => std::panic::resume_unwind(e),
+            }
         }
         o => panic!("harness: unknown rw op {o}"),
     }
